@@ -11,12 +11,49 @@ Proof.
   destruct (0 <? 1 + len l) eqn:E; [reflexivity|lia].
 Qed.
 
+(* coap_host_is_unix_domain reads only the host->length bytes of the host, for every host *)
+Lemma uri_host_is_unix_chk_ok h : uri_host_is_unix_chk uri_UNIX_K h = UOk (uri_host_is_unix h).
+Proof.
+  unfold uri_host_is_unix_chk, uri_host_is_unix, uri_UNIX_K.
+  destruct h as [|a [|b [|c r]]].
+  - reflexivity.
+  - rewrite len_cons, len_nil. cbn [Z.add Z.leb Z.compare uri_bind uri_rd nth_error uri_is_unix_host orb].
+    reflexivity.
+  - rewrite !len_cons, len_nil.
+    cbn [Z.add Pos.add Pos.succ Z.leb Z.compare Pos.compare Pos.compare_cont uri_bind uri_rd nth_error
+         uri_is_unix_host orb]. reflexivity.
+  - rewrite !len_cons. pose proof (len_nonneg r).
+    destruct (3 <=? 1 + (1 + (1 + len r))) eqn:E3; [|lia].
+    destruct (1 <=? 1 + (1 + (1 + len r))) eqn:E1; [|lia].
+    cbn [uri_bind uri_rd nth_error uri_is_unix_host].
+    destruct (a =? 37); cbn [andb orb uri_bind]; [|reflexivity].
+    destruct (b =? 50); cbn [andb orb uri_bind]; [|reflexivity].
+    destruct ((c =? 70) || (c =? 102)); reflexivity.
+Qed.
+
+Lemma uri_into_optlist_unfold u dst create chain :
+  uri_into_optlist u dst create chain =
+  (let chain1 := chain ++ uri_hostport_opts u dst create in
+   ulet c2 <- (if 0 <? len (up_path u) then uri_path_into_optlist (up_path u) 11 chain1
+               else UOk chain1) ;;
+   if 0 <? len (up_query u) then uri_query_into_optlist (up_query u) 15 c2 else UOk c2).
+Proof.
+  unfold uri_into_optlist, uri_into_optlist_k, uri_hostport_opts.
+  destruct create.
+  - rewrite uri_host_is_unix_chk_ok. reflexivity.
+  - cbn [uri_bind]. unfold uri_hostport_opts_ux. cbn [andb]. reflexivity.
+Qed.
+
+(* with the guard constant 2 the host "%2" is read one byte past its end *)
+Lemma uri_host_is_unix_k2_overreads : uri_host_is_unix_chk 2 [37; 50] = UOob.
+Proof. reflexivity. Qed.
+
 Theorem uri_into_optlist_spec u dst create chain po qo :
   uri_spec_path_opts (up_path u) = Some po -> uri_spec_query_opts (up_query u) = Some qo ->
   uri_into_optlist u dst create chain =
   UOk (chain ++ uri_hostport_opts u dst create ++ uri_tag 11 po ++ uri_tag 15 qo).
 Proof.
-  intros Hp Hq. unfold uri_into_optlist. rewrite !uri_if_len.
+  intros Hp Hq. rewrite uri_into_optlist_unfold. cbv zeta. rewrite !uri_if_len.
   unfold uri_spec_path_opts in Hp. unfold uri_spec_query_opts in Hq.
   assert (E1 : (match up_path u with
                 | [] => UOk (chain ++ uri_hostport_opts u dst create)
@@ -39,7 +76,7 @@ Theorem uri_into_optlist_safe u dst create chain :
     UOk (chain ++ uri_hostport_opts u dst create ++ uri_tag 11 pa ++ uri_tag 15 qa) /\
     Forall (fun v => uri_kind v = 0) pa.
 Proof.
-  unfold uri_into_optlist. rewrite !uri_if_len.
+  rewrite uri_into_optlist_unfold. cbv zeta. rewrite !uri_if_len.
   assert (E1 : exists pa,
              (match up_path u with
               | [] => UOk (chain ++ uri_hostport_opts u dst create)
